@@ -13,6 +13,7 @@ PROFILES = {
     'elections':  [30, 26, 3, 4, 6, 6, 1, 2, 3, 3, 8, 5],
     'compaction': [20, 28, 1, 2, 4, 16, 10, 2, 0, 1, 10, 6],
     'faulty':     [20, 26, 9, 8, 9, 9, 3, 2, 1, 1, 7, 5],
+    'isolation':  [28, 22, 1, 3, 5, 10, 1, 2, 8, 4, 12, 4],
 }
 
 
@@ -30,7 +31,7 @@ def op_table(profile, extra=None):
 
 
 def cfg_strategy(n_min=2, n_max=5, profiles=None, fixed=None, batch_bytes=None):
-    profiles = profiles or list(PROFILES)
+    profiles = profiles or [p for p in PROFILES if p != 'isolation']
     d = {
         'n': st.integers(n_min, n_max),
         'rng': st.integers(0, 2 ** 16),
